@@ -7,6 +7,7 @@ import Driver.Lower
 import Driver.Helpers
 import Driver.Sem
 import Driver.Types
+import Driver.Adds
 open Driver
 
 def step (line : String) : List String :=
@@ -20,6 +21,7 @@ def step (line : String) : List String :=
   | "helpers" :: rest => runHelpers rest
   | "sem" :: rest => runSem rest
   | "types" :: rest => runTypes rest
+  | "adds" :: rest => runAdds rest
   | [] => []
   | f :: _ => [s!"{f} ? unknown-family"]
 
